@@ -17,6 +17,7 @@ contains it, and the accuracy of the fitted pixel position.
 import ToastyVerif.Model.Lookup
 import ToastyVerif.Lemmas.RatArith
 import ToastyVerif.Props.C04
+import ToastyVerif.Gen.Plumbing
 
 namespace C12
 open Lookup Toast ToastBase
@@ -338,5 +339,9 @@ example : selectLevel1 false (3 / 8) = 0 ∧ selectLevel1 true (3 / 8) = 3 ∧ s
 
 /-- the choice rule on concrete scores: first zero wins; otherwise the first maximum -/
 example : pick [-3, 0, 0, -2] = 1 ∧ pick [-3, -1, -1, -2] = 1 ∧ pick [-5, -4, -3, -3] = 2 := by decide
+
+/-- **entry_points**: the call sites through which this property's workflows reach the modelled functions have, in the source as
+it is now, the argument plumbing the model assumes (facts re-extracted on every run, `Gen/Plumbing.lean`) -/
+theorem entry_points : Gen.Plumbing.pixel_lookup_forwards_coordsys = true := by decide
 
 end C12
